@@ -164,7 +164,91 @@ def run_cases(ctx, out, cases, tag):
             out.sample({"config": list(cfg), "n_fs": nfs, "doc_fss_head": save0["ok"]["fss"][:3]})
 
 
+def corner_sessions():
+    """documents and type systems at the edge of the format, where the hand-written model was found NOT to follow the code and was
+    repaired (correspondence only: the property promises nothing about them): several sofa elements with one sofaID; feature
+    names that collide with the reserved keys of a %TYPES entry"""
+    def sofa(i, num, name, s="abc", **kw):
+        f = [["sofaNum", num], ["sofaID", name]]
+        if s is not None:
+            f.append(["sofaString", s])
+        for k, v in kw.items():
+            f.append([k, v])
+        return {"id": i, "ty": "uima.cas.Sofa", "elements": None, "feats": f}
+
+    def tok(i, sofa_id):
+        return {"id": i, "ty": "x.Tok", "elements": None, "feats": [["begin", 0], ["end", 1], ["@sofa", sofa_id]]}
+
+    def sess_a(fss, views):
+        return [{"op": "ts.new", "doc": True},
+                {"op": "ts.create_type", "ts": 0, "name": "x.Tok", "super": "uima.tcas.Annotation"},
+                {"op": "fs.new", "ts": 0, "type": "x.Tok", "feats": {"begin": 0, "end": 1}},
+                {"op": "json.load", "ts": 0, "merge": False, "doc": {"types": None, "fss": fss, "views": views}},
+                {"op": "cas.add", "h": 0, "fs": 0, "keep_id": True},
+                {"op": "json.save", "h": 0, "mode": "none"}]
+
+    out = []
+    iv = sofa(1, 1, "_InitialView")
+    for fss, views in [
+        ([iv, sofa(2, 2, "v"), sofa(3, 7, "v")], []),
+        ([iv, sofa(2, 2, "v", "first", mimeType="text/plain"), sofa(9, 7, "v", None, sofaURI="http://x")], []),
+        ([sofa(1, 1, "_InitialView", "one"), sofa(5, 4, "_InitialView", "two")], []),
+        ([iv, sofa(2, 2, "v"), sofa(3, 7, "v"), tok(4, 3)], [{"name": "v", "sofa": 2, "members": [4]}]),
+        ([iv, sofa(2, 2, "v"), sofa(3, 7, "v"), tok(4, 2)], [{"name": "v", "sofa": 2, "members": [4]}]),
+        ([iv, sofa(2, 2, "v"), sofa(10, 7, "v")], []),
+        ([sofa(4, 3, "v"), sofa(6, 5, "v", "zzz"), sofa(2, 1, "_InitialView"), tok(7, 4)], [{"name": "v", "sofa": 4, "members": [7]}]),
+    ]:
+        out.append(sess_a(fss, views))
+    for mode in ("full", "minimal"):
+        for fname in ("%foo", "%NAME", "%SUPER_TYPE", "%RANGE", "%DESCRIPTION", "foo"):
+            for first in (False, True):
+                ops = [{"op": "ts.new", "doc": True},
+                       {"op": "ts.create_type", "ts": 0, "name": "x.T", "super": "uima.cas.TOP", "descr": "td"}]
+                f1 = {"op": "ts.create_feature", "ts": 0, "domain": "x.T", "name": "plain", "range": "uima.cas.String"}
+                f2 = {"op": "ts.create_feature", "ts": 0, "domain": "x.T", "name": fname, "range": "uima.cas.Integer", "descr": "fd"}
+                ops += [f2, f1] if first else [f1, f2]
+                ops += [{"op": "ts.create_type", "ts": 0, "name": "x.U", "super": "uima.cas.TOP"},
+                        {"op": "ts.create_feature", "ts": 0, "domain": "x.U", "name": "t", "range": "x.T"},
+                        {"op": "cas.new", "ts": 0, "lenient": False},
+                        {"op": "fs.new", "ts": 0, "type": "x.U", "feats": {}},
+                        {"op": "cas.add", "h": 0, "fs": 0, "keep_id": True},
+                        {"op": "json.save", "h": 0, "mode": mode}]
+                out.append(ops)
+    for fname in ("%foo", "%NAME", "%SUPER_TYPE", "foo"):
+        # (a hand-written %DESCRIPTION member holding a feature object gives the type a dict-valued description in the code, which
+        #  the model's type records cannot hold: the one documented place where the model stops with NotImplemented)
+        doc = {"types": [{"name": "x.T", "super": "uima.cas.TOP", "descr": None, "feats": [
+                   {"name": "plain", "range": "uima.cas.String", "descr": None, "multi": None, "elem": None},
+                   {"name": fname, "range": "uima.cas.Integer", "descr": None, "multi": None, "elem": None}]}],
+               "fss": [{"id": 1, "ty": "uima.cas.Sofa", "elements": None, "feats": [["sofaNum", 1], ["sofaID", "_InitialView"]]}],
+               "views": [{"name": "_InitialView", "sofa": 1, "members": []}]}
+        out.append([{"op": "json.load", "doc": doc, "merge": True}, {"op": "ts.query", "ts": 0, "kind": "features", "name": "x.T"}])
+    return out
+
+
+def run_corner(ctx, out):
+    sess = corner_sessions()
+    impl = sessions.run_impl_sessions(sess)
+    model = sessions.run_model_sessions(ctx.driver, sess)
+    if model is None:
+        return
+    for k, (ops, io) in enumerate(zip(sess, impl)):
+        out.evaluations += 1
+        out.count("corner:" + ("ok" if all("ok" in r for r in io) else "raises"))
+        if model[k] is None:
+            continue
+        def canon_op(i, x, ops=ops):
+            if i < len(ops) and ops[i]["op"] == "json.save" and isinstance(x, dict) and "ok" in x:
+                return {"ok": refio.canon_jdoc(x["ok"])}
+            return x
+        d = sessions.first_diff(io, model[k], canon_op)
+        if d is not None:
+            out.disagreements.append({"scenario": {"k": "session", "ops": ops}, "op_index": d, "op": ops[d] if d < len(ops) else None,
+                                      "impl": io[d] if d < len(io) else None, "model": model[k][d] if d < len(model[k]) else None})
+
+
 def run(ctx, out, budget):
+    run_corner(ctx, out)
     out.rule = ("type-directed CASes as for C01 plus null elements in FSArrays and sofa URIs, each under one of the configurations "
                 "{FULL, MINIMAL} x {no type system supplied, original supplied and merged}, NONE with the original supplied unmerged, "
                 "FULL with the original supplied unmerged; pretty_print/ensure_ascii on re-serialisation. Checked: load(save(c)) = c "
